@@ -691,7 +691,27 @@ func runDocument(in docInput) (cases []vlib.Case, status string) {
 		}
 		return cases, "render-" + o.Status
 	}
+	// structural tags computed from the laid-out document: pages of different sizes, and
+	// whether a page after the first, of another height than the first, carries links / anchors
+	for _, p := range doc.Pages {
+		if p.Height != doc.Pages[0].Height {
+			tags = append(tags, "page-heights-differ")
+			break
+		}
+	}
+	for _, p := range doc.Pages {
+		if p.Width != doc.Pages[0].Width {
+			tags = append(tags, "page-widths-differ")
+			break
+		}
+	}
 	vp := document.VerifPages(doc)
+	for i, p := range doc.Pages {
+		if i < len(vp) && p.Height != doc.Pages[0].Height && len(vp[i].Links)+len(vp[i].Anchors) > 0 {
+			tags = append(tags, "links-on-page-of-other-height")
+			break
+		}
+	}
 	if !finitePagesData(vp) {
 		// a non finite position cannot be written as a rational: the trace monitor reports it
 		tags = append(tags, "nonfinite-geometry")
